@@ -731,6 +731,14 @@ class Magnetization(MagicProperties):
         if val is not None:
             self.arrow.size = val
 
+    def as_dict(self, flatten=False, separator="."):
+        """returns recursively a nested dictionary with all properties objects of the class,
+        without the deprecated alias `size` (its value is part of `arrow`): re-applying the
+        alias would overwrite a newer `arrow.size`"""
+        dict_ = super().as_dict(flatten=flatten, separator=separator)
+        dict_.pop("size", None)
+        return dict_
+
     @property
     def color(self):
         """Color properties showing the magnetization direction (for the plotly backend).
